@@ -54,6 +54,13 @@ EXPLANATION = (
     "expression; the constraint loops dispatch identically; "
     "apply/finalise_same_chip_constraints are paired on every non-empty "
     "return; explicit raises are the two documented errors; LINK.")
+EXPLANATION += (
+    " R6 also covers implicit raises: a random draw from a population the "
+    "function shrinks needs a non-emptiness fact that is still valid at "
+    "the draw (a fact about a container is dropped when the container is "
+    "mutated on a path from the test). R7 also reports dict.fromkeys(keys, "
+    "<mutable>) / [<mutable>] * n containers whose entries are mutated in "
+    "place.")
 NOT_DECIDED = [
     "'succeeds whenever a placement exists' (completeness of the searches)",
     "termination of the annealing schedule",
